@@ -2289,6 +2289,8 @@ pub fn compile<I: BufRead, O: Write>(
         .op(Op::infix(Rule::assign, Assoc::Right)
             | Op::infix(Rule::mass, Assoc::Right)
             | Op::infix(Rule::pass, Assoc::Right)
+            | Op::infix(Rule::mulass, Assoc::Right)
+            | Op::infix(Rule::divass, Assoc::Right)
             | Op::infix(Rule::andass, Assoc::Right)
             | Op::infix(Rule::orass, Assoc::Right)
             | Op::infix(Rule::xorass, Assoc::Right)
@@ -2323,6 +2325,8 @@ pub fn compile<I: BufRead, O: Write>(
         .op(Op::infix(Rule::assign, Assoc::Right)
             | Op::infix(Rule::mass, Assoc::Right)
             | Op::infix(Rule::pass, Assoc::Right)
+            | Op::infix(Rule::mulass, Assoc::Right)
+            | Op::infix(Rule::divass, Assoc::Right)
             | Op::infix(Rule::andass, Assoc::Right)
             | Op::infix(Rule::orass, Assoc::Right)
             | Op::infix(Rule::xorass, Assoc::Right)
